@@ -38,6 +38,23 @@ func MockSpecs(thorough bool) []*spec.Spec {
 		mk("mapkey_"+k, "kind=string,card=map,key="+k, spec.M("Resp", spec.F("val", "string").MapK(k), spec.Msg("by", "Inner").MapK(k), spec.F("label", "string")),
 			[]*spec.Message{spec.M("Inner", spec.F("name", "string"))}, nil)
 	}
+	{
+		// examples on the fields of messages declared one, two and three levels below a top-level message, and the same nested
+		// path below two different top-level messages
+		deep := func(top string) *spec.Message {
+			para := spec.M("Para", spec.F("text", "string").Ex("alpha", "beta"), spec.F("level", "int32").Ex("7"))
+			para.Messages = []*spec.Message{spec.M("Span", spec.F("style", "string").Ex("bold", "plain"))}
+			para.Fields = append(para.Fields, spec.Msg("span", top+".Section.Para.Span"))
+			section := spec.M("Section", spec.F("title", "string").Ex("intro"), spec.Msg("para", top+".Section.Para"))
+			section.Messages = []*spec.Message{para}
+			m := spec.M(top, spec.F("label", "string").Ex("doc"), spec.Msg("section", top+".Section"))
+			m.Messages = []*spec.Message{section}
+			return m
+		}
+		resp := deep("Resp")
+		resp.Fields = append(resp.Fields, spec.Msg("other", "Other"))
+		mk("nested_deep", "kind=message,card=nested_declarations,examples=parsable", resp, []*spec.Message{deep("Other")}, nil)
+	}
 	color := spec.E("Color", "COLOR_UNSPECIFIED", "COLOR_RED")
 	mk("enum_singular", "kind=enum,card=singular", spec.M("Resp", spec.En("val", "Color")), nil, []*spec.Enum{color})
 	mk("message_singular", "kind=message,card=singular", spec.M("Resp", spec.Msg("val", "Inner"), spec.F("label", "string")), []*spec.Message{spec.M("Inner", spec.F("name", "string"), spec.F("n", "int64"))}, nil)
